@@ -479,6 +479,10 @@ class TileCreator(object):
             if layer[0] is not None:
                 layers.append(layer)
 
+        if not layers:
+            # no source has an image for this query (like a single source that raises BlankImage)
+            return None
+
         return merge_images(layers, size=query.size, bbox=query.bbox, bbox_srs=query.srs,
                             image_opts=self.tile_mgr.image_opts, merger=self.image_merger)
 
